@@ -5,6 +5,11 @@ import os
 ROOT = os.path.dirname(os.path.dirname(os.path.abspath(__file__)))
 
 CHECKS = {
+ "C09": dict(
+    text="Partial. Theorems C09_one_response_from_own_request_partial (for every global history, i.e. any interleaving of the connections' events over w workers with connection ownership fd mod w, a connection's responses are exactly the handler applied to its own requests, one each, in order) and C09_interleaving_independent_partial. Data-race freedom of the C++ and termination of shutdown() cannot be theorems about an executable Gallina model: they are decided by running the real endpoint built with -fsanitize=thread (1-6 workers, 1-12 keep-alive clients, 5-300 numbered requests over every method table of a shared router and table-less methods, shutdown() after or 0-200 ms into the load): any ThreadSanitizer report, wrong or missing response, shutdown that does not return or framework thread left alive is a violation.",
+    note="Closed under the global context. The deciding evidence for the race/shutdown half is ThreadSanitizer on OS-produced schedules (not a proof, not exhaustive). Trusted: harness/h_mt.cc, TSan runtime.",
+    technique="Coq proof of the dispatch logic (per-connection independence for every interleaving) + ThreadSanitizer run of the live multi-worker endpoint with response matching and shutdown under load",
+    design="§2 C09"),
  "C15": dict(
     text="Partial. Theorems over the client transition system (pool of m connections with at most one request in flight each, per-connection server answer stream, overflow queue, hand-over on release): C15_fulfilled_only_with_own_response, C15_settled_at_most_once (a settled outcome never changes, whatever follows), C15_answer_fulfils, C15_timeout_rejects, C15_connection_limit, for every history of issue/response/time-out/server-close events; C15_refuted_without_close_on_timeout exhibits the 4-event history on which the pinned behaviour fulfils request 1 with the answer to request 0. Tied to /repo by Http::Client (1-3 threads, 1-4 connections) against a scripted raw server (immediate, delayed, dribbled, chunked, closing, never, late answers; two waves; more requests than connections) compared per request with the model run on the same timed history. Residue: thread interleavings inside the client are those the OS produces; timers and sockets are the oracle; simultaneous connections are bounded through the total the server accepts.",
     note="Closed under the global context. Trusted: harness/h_client.cc (scripted server, margins), the timed-event replay in ocaml/driver.ml (client_case).",
